@@ -234,6 +234,26 @@ def run_case(case):
             wk.destroy()
         if len(out['violations']) > 3:
             break
+    # ---- a concurrent remover: the entry to be unlinked has just vanished
+    # (another trash-empty / trash-rm / a user is at work in the same trash
+    # dir): one removal inside a payload answers ENOENT.  Whatever is then
+    # left of that payload must keep its .trashinfo
+    if cmd != 'restore':
+        import errno as _errno
+        rem = [e for e in ref.events if e['c'] == 'M' and
+               e['op'] in ('unlink', 'rmdir', 'remove')]
+        for e in rem[:40]:
+            wk, rk, a0, a1 = sc.execute({'faults': {str(e['k']): _errno.ENOENT}})
+            try:
+                if rk.timeout:
+                    continue
+                if any(x.get('r') == 'F' for x in rk.events):
+                    obs['vanished_entry_states'] = obs.get('vanished_entry_states', 0) + 1
+                    judge_state(wk, rk, a0, a1)
+            finally:
+                wk.destroy()
+            if len(out['violations']) > 3:
+                break
     # ---- real SIGKILL at random instants (thorough tier)
     import random as _random
     krng = _random.Random(case.get('seed', 1))
